@@ -47,6 +47,49 @@ const e2Password = "netpw"
 
 // e2PrivateRoutes is filled by a generated file (see bin/engines.py rewrite("routes")); the literal below is
 // only the fallback.
+// e2WiringDefaultMux / e2WiringRoutes are filled by a generated file (rewrite("wiring")) from the current
+// robustirc.go: main() either leaves http.Server.Handler nil (then http.DefaultServeMux serves, including
+// whatever imported packages registered on it) or gives it a mux of its own.
+var e2WiringDefaultMux = true
+var e2WiringRoutes = [][3]string{{"http", "/robustirc/v1/", "DispatchPublic"}, {"http", "/", "DispatchPrivate"}}
+
+type e2APIKey struct{}
+
+var e2MuxOnce sync.Once
+var e2Mux *http.ServeMux
+
+// e2Serve hands a simulated request to the node's API the way main()'s HTTP server would: through the mux.
+func e2Serve(h *api.HTTP, w http.ResponseWriter, req *http.Request) {
+	e2MuxOnce.Do(func() {
+		if e2WiringDefaultMux {
+			e2Mux = http.DefaultServeMux
+		} else {
+			e2Mux = http.NewServeMux()
+		}
+		for _, rt := range e2WiringRoutes {
+			method := rt[2]
+			e2Mux.HandleFunc(rt[1], func(w http.ResponseWriter, r *http.Request) {
+				a, _ := r.Context().Value(e2APIKey{}).(*api.HTTP)
+				if a == nil {
+					http.Error(w, "harness: no target", 599)
+					return
+				}
+				switch method {
+				case "DispatchPublic":
+					a.DispatchPublic(w, r)
+				case "DispatchPrivate":
+					a.DispatchPrivate(w, r)
+				case "DispatchPrivateWithoutAuth":
+					a.DispatchPrivateWithoutAuth(w, r)
+				default:
+					panic("harness: main() registers api." + method + ", which the simulated wiring does not know")
+				}
+			})
+		}
+	})
+	e2Mux.ServeHTTP(w, req.WithContext(context.WithValue(req.Context(), e2APIKey{}, h)))
+}
+
 var e2PrivateRoutes = [][2]string{{"GET", "/"}, {"GET", "/status"}, {"GET", "/config"}, {"POST", "/config"}, {"POST", "/kill"}}
 
 type e2Step struct {
@@ -490,10 +533,8 @@ func (r *e2Run) deliver(src int, req *http.Request, public bool) (*http.Response
 		defer close(done)
 		if strings.HasPrefix(req.URL.Path, "/robustirc/v1/") {
 			req.Header.Set("X-Verif-Proxy-Src", strconv.Itoa(dst.idx))
-			h.DispatchPublic(rec, req)
-		} else {
-			h.DispatchPrivate(rec, req)
 		}
+		e2Serve(h, rec, req)
 	}()
 wait:
 	for {
@@ -576,6 +617,9 @@ type e2Run struct {
 	attackTokens   []string
 	cfgAccepted    int
 	lastCfg        string
+	secrets        map[string]string // secret -> session
+	secretsMu      sync.Mutex
+	lastEndedS     string
 }
 
 func (r *e2Run) count(k string, n int64) {
@@ -598,6 +642,10 @@ func (r *e2Run) request(ctx context.Context, node int, method, path string, hdr 
 		return 0, nil, nil, err
 	}
 	for k, v := range hdr {
+		if k == "X-Verif-RemoteAddr" {
+			req.RemoteAddr = v // the address the (simulated) TCP connection comes from
+			continue
+		}
 		req.Header.Set(k, v)
 	}
 	resp, err := r.deliver(-1, req, true)
@@ -640,6 +688,7 @@ func (c *e2Client) createSession(ctx context.Context) bool {
 			var rep struct{ Sessionid, Sessionauth, Prefix string }
 			if json.Unmarshal(body, &rep) == nil && rep.Sessionid != "" {
 				c.session, c.auth = rep.Sessionid, rep.Sessionauth
+				r.noteSecret(rep.Sessionid, rep.Sessionauth)
 				c.sid, _ = strconv.ParseUint(rep.Sessionid, 0, 64)
 				r.count("sessions_created", 1)
 				return true
@@ -793,7 +842,7 @@ func (c *e2Client) reader(ctx context.Context) {
 			}
 		}()
 		r.count("getmessages_connections", 1)
-		n.api.DispatchPublic(w, req)
+		e2Serve(n.api, w, req)
 		cancel()
 		if w.code == 404 {
 			c.goneA.Store(true)
@@ -1022,6 +1071,8 @@ func (r *e2Run) attacker(ctx context.Context) {
 				}
 			}
 			routes = append(routes, [2]string{"GET", "/nonexistent"}, [2]string{"POST", "/nonexistent"}, [2]string{"DELETE", "/config"})
+			// whatever else the process serves (packages that register themselves on the default mux)
+			routes = append(routes, [2]string{"GET", "/debug/pprof/"}, [2]string{"GET", "/debug/pprof/cmdline"}, [2]string{"GET", "/debug/pprof/goroutine?debug=1"}, [2]string{"GET", "/debug/vars"}, [2]string{"GET", "/debug/requests"}, [2]string{"GET", "/robustirc/"}, [2]string{"GET", "/debug/pprof/heap"})
 			burst := 1
 			if r.choice("attacker/burst", 4) == 0 {
 				burst = 14 // rapid wrong passwords: the back-off must not turn into acceptance
@@ -1284,6 +1335,7 @@ func (r *e2Run) lagProber(ctx context.Context) {
 			continue
 		}
 		r.count("lagprobe_sessions", 1)
+		r.noteSecret(rep.Sessionid, rep.Sessionauth)
 		// all nodes are asked in the same instant, right after the creation was acknowledged: followers
 		// learn the commit index only with the next AppendEntries
 		var wg sync.WaitGroup
@@ -1302,7 +1354,7 @@ func (r *e2Run) lagProber(ctx context.Context) {
 				req, _ := http.NewRequestWithContext(gctx, "GET", "https://"+n.addr+"/robustirc/v1/"+rep.Sessionid+"/messages?lastseen=0.0", nil)
 				req.Header.Set("X-Session-Auth", rep.Sessionauth)
 				w := &e2StreamWriter{hdr: http.Header{}, on: func(m *robust.Message) {}}
-				n.api.DispatchPublic(w, req)
+				e2Serve(n.api, w, req)
 				gcancel()
 				r.count("lagprobe_lookups", 1)
 				switch {
@@ -1329,6 +1381,9 @@ func (r *e2Run) lagProber(ctx context.Context) {
 // happens-before; the race detector is the oracle. Groups are separated by virtual sleeps only.
 func (r *e2Run) stress(ctx context.Context) {
 	g := 0
+	// the posts of the groups go to a session of the actor's own: a client's session carries one POST at a
+	// time (the protocol the duplicate detection relies on)
+	own, ownAuth := "", ""
 	for ctx.Err() == nil {
 		t := time.NewTimer(time.Duration(100+r.choice("stress/wait", 900)) * time.Millisecond)
 		select {
@@ -1349,6 +1404,29 @@ func (r *e2Run) stress(ctx context.Context) {
 		g++
 		v := live[r.choice("stress/victim", len(live))]
 		node := r.choice("stress/node", len(r.nodes))
+		if own == "" {
+			rctx, cancel := context.WithTimeout(ctx, 15*time.Second)
+			code, body, _, err := r.request(rctx, node, "POST", "/robustirc/v1/session", nil, "")
+			var rep struct{ Sessionid, Sessionauth string }
+			if err == nil && code == 200 && json.Unmarshal(body, &rep) == nil && rep.Sessionid != "" {
+				r.noteSecret(rep.Sessionid, rep.Sessionauth)
+				h := map[string]string{"X-Session-Auth": rep.Sessionauth}
+				ok := true
+				for i, line := range []string{"NICK stressor", "USER st 0 * :st", "JOIN #sim"} {
+					b, _ := json.Marshal(map[string]interface{}{"Data": line, "ClientMessageId": uint64(6000000 + i)})
+					if c, _, _, e := r.request(rctx, node, "POST", "/robustirc/v1/"+rep.Sessionid+"/message", h, string(b)); e != nil || c != 200 {
+						ok = false
+					}
+				}
+				if ok {
+					own, ownAuth = rep.Sessionid, rep.Sessionauth
+				}
+			}
+			cancel()
+			if own == "" {
+				continue
+			}
+		}
 		var wg sync.WaitGroup
 		launch := func(f func()) {
 			wg.Add(1)
@@ -1356,10 +1434,10 @@ func (r *e2Run) stress(ctx context.Context) {
 		}
 		post := func(k int) func() {
 			return func() {
-				body, _ := json.Marshal(map[string]interface{}{"Data": fmt.Sprintf("PRIVMSG #sim :stress-%d-%d", g, k), "ClientMessageId": uint64(5000000 + g*10 + k)})
+				body, _ := json.Marshal(map[string]interface{}{"Data": fmt.Sprintf("PRIVMSG #sim :stress-%d-%d", g, k), "ClientMessageId": uint64(1)<<40 + uint64(g*16+k)})
 				rctx, cancel := context.WithTimeout(ctx, 15*time.Second)
 				defer cancel()
-				r.request(rctx, node, "POST", "/robustirc/v1/"+v.session+"/message", map[string]string{"X-Session-Auth": v.auth}, string(body))
+				r.request(rctx, node, "POST", "/robustirc/v1/"+own+"/message", map[string]string{"X-Session-Auth": ownAuth}, string(body))
 			}
 		}
 		get := func(path string) func() {
@@ -1378,7 +1456,7 @@ func (r *e2Run) stress(ctx context.Context) {
 			req.Header.Set("X-Session-Auth", v.auth)
 			w := &e2StreamWriter{hdr: http.Header{}, on: func(m *robust.Message) {}}
 			if r.nodes[node].aliveA.Load() {
-				r.nodes[node].api.DispatchPublic(w, req)
+				e2Serve(r.nodes[node].api, w, req)
 			}
 		}
 		sweep := func() {
@@ -1398,12 +1476,14 @@ func (r *e2Run) stress(ctx context.Context) {
 			if err != nil || code != 200 || json.Unmarshal(body, &rep) != nil || rep.Sessionid == "" {
 				return
 			}
+			r.noteSecret(rep.Sessionid, rep.Sessionauth)
 			h := map[string]string{"X-Session-Auth": rep.Sessionauth}
 			for i, line := range []string{fmt.Sprintf("NICK st%d", g), "USER st 0 * :st", "JOIN #sim"} {
 				b, _ := json.Marshal(map[string]interface{}{"Data": line, "ClientMessageId": uint64(7000000 + g*10 + i)})
 				r.request(rctx, node, "POST", "/robustirc/v1/"+rep.Sessionid+"/message", h, string(b))
 			}
 			r.request(rctx, node, "DELETE", "/robustirc/v1/"+rep.Sessionid, h, `{"Quitmessage":"done"}`)
+			r.setLastEnded(rep.Sessionid)
 			r.count("stress_session_lifecycles", 1)
 		}
 		cfgWrite := func() {
@@ -1415,12 +1495,100 @@ func (r *e2Run) stress(ctx context.Context) {
 			}
 			h := basic()
 			h["X-RobustIRC-Config-Revision"] = hdr.Get("X-RobustIRC-Config-Revision")
-			r.request(rctx, node, "POST", "/config", h, fmt.Sprintf("SessionExpiration = \"30m0s\"\nPostMessageCooloff = \"%dms\"\n[IRC]\n[[IRC.Operators]]\nName = \"root\"\nPassword = \"st%d\"\n", 50+g%300, g))
+			r.request(rctx, node, "POST", "/config", h, fmt.Sprintf("SessionExpiration = \"30m0s\"\nPostMessageCooloff = \"%dms\"\n[IRC]\n[[IRC.Operators]]\nName = \"root\"\nPassword = \"stpw\"\n", 50+g%300))
 			r.count("stress_config_writes", 1)
+		}
+		if r.prop == "C11" && r.choice("stress/burst", 3) == 0 {
+			// many bridges (re)connecting in the same instant: session creations overlap on one node
+			for b := 0; b < 8; b++ {
+				launch(func() {
+					nd := r.nodes[node]
+					if !nd.aliveA.Load() {
+						return
+					}
+					req, _ := http.NewRequestWithContext(ctx, "POST", "https://"+nd.addr+"/robustirc/v1/session", strings.NewReader(""))
+					rec := httptest.NewRecorder()
+					e2Serve(nd.api, rec, req)
+					var rep struct{ Sessionid, Sessionauth string }
+					if rec.Code == 200 && json.Unmarshal(rec.Body.Bytes(), &rep) == nil && rep.Sessionid != "" {
+						r.noteSecret(rep.Sessionid, rep.Sessionauth)
+						r.count("stress_burst_creations", 1)
+					}
+				})
+			}
+		}
+		stale := func() {
+			// requests for sessions this node does not have: one that ended, one that does not exist yet
+			rctx, cancel := context.WithTimeout(ctx, 5*time.Second)
+			defer cancel()
+			for _, sid := range []string{r.lastEnded(), fmt.Sprintf("0x%x", prodMessageOffsetE2+uint64(1000000+g))} {
+				if sid == "" {
+					continue
+				}
+				h := map[string]string{"X-Session-Auth": strings.Repeat("ef", 64)}
+				r.request(rctx, node, "POST", "/robustirc/v1/"+sid+"/message", h, `{"Data":"PING :x","ClientMessageId":1}`)
+				req, _ := http.NewRequestWithContext(rctx, "GET", "https://"+r.nodes[node].addr+"/robustirc/v1/"+sid+"/messages?lastseen=0.0", nil)
+				req.Header.Set("X-Session-Auth", h["X-Session-Auth"])
+				if r.nodes[node].aliveA.Load() {
+					e2Serve(r.nodes[node].api, httptest.NewRecorder(), req)
+				}
+				r.count("stress_stale_session_requests", 2)
+			}
+		}
+		operGline := func() {
+			// an operator bans a user's address while the configuration is being read. Both talk to the leader
+			// directly: behind a proxying follower every client has the follower's address, and banning that
+			// address (legitimately) ends all of them
+			l := r.leader()
+			if l == nil {
+				return
+			}
+			node := l.idx
+			rctx, cancel := context.WithTimeout(ctx, 20*time.Second)
+			defer cancel()
+			mk := func(nick, addr string, lines ...string) (string, map[string]string) {
+				code, body, _, err := r.request(rctx, node, "POST", "/robustirc/v1/session", map[string]string{"X-Verif-RemoteAddr": addr}, "")
+				var rep struct{ Sessionid, Sessionauth string }
+				if err != nil || code != 200 || json.Unmarshal(body, &rep) != nil || rep.Sessionid == "" {
+					return "", nil
+				}
+				r.noteSecret(rep.Sessionid, rep.Sessionauth)
+				h := map[string]string{"X-Session-Auth": rep.Sessionauth, "X-Verif-RemoteAddr": addr}
+				for i, line := range append([]string{"NICK " + nick, "USER st 0 * :st"}, lines...) {
+					b, _ := json.Marshal(map[string]interface{}{"Data": line, "ClientMessageId": uint64(8000000 + g*10 + i)})
+					r.request(rctx, node, "POST", "/robustirc/v1/"+rep.Sessionid+"/message", h, string(b))
+				}
+				return rep.Sessionid, h
+			}
+			victim := fmt.Sprintf("stv%d", g)
+			vs, _ := mk(victim, fmt.Sprintf("203.0.113.%d:40000", 1+g%250))
+			os, oh := mk(fmt.Sprintf("sto%d", g), "203.0.113.251:40000", "OPER root stpw")
+			if vs == "" || os == "" {
+				return
+			}
+			var inner sync.WaitGroup
+			for k := 0; k < 3; k++ {
+				inner.Add(1)
+				go func() { defer inner.Done(); get("/config")() }()
+			}
+			b, _ := json.Marshal(map[string]interface{}{"Data": "GLINE " + victim + " :stress", "ClientMessageId": uint64(8000000 + g*10 + 9)})
+			r.request(rctx, node, "POST", "/robustirc/v1/"+os+"/message", oh, string(b))
+			inner.Wait()
+			r.request(rctx, node, "DELETE", "/robustirc/v1/"+os, oh, `{"Quitmessage":"done"}`)
+			r.setLastEnded(os)
+			r.count("stress_glines", 1)
 		}
 		n := 2 + r.choice("stress/size", 4)
 		for k := 0; k < n; k++ {
-			switch r.choice("stress/op", 17) {
+			opk := r.choice("stress/op", 20)
+			if d := os.Getenv("VERIF_DBG_NOOP"); d != "" && strings.Contains(d, fmt.Sprintf(",%d,", opk)) {
+				opk = 0
+			}
+			switch opk {
+			case 17:
+				launch(stale)
+			case 18, 19:
+				launch(operGline)
 			case 12:
 				launch(sweep)
 			case 13:
@@ -1460,6 +1628,32 @@ func (r *e2Run) stress(ctx context.Context) {
 		r.count("stress_ops", int64(n+2))
 		wg.Wait()
 	}
+}
+
+func (r *e2Run) setLastEnded(s string) {
+	r.secretsMu.Lock()
+	r.lastEndedS = s
+	r.secretsMu.Unlock()
+}
+
+func (r *e2Run) lastEnded() string {
+	r.secretsMu.Lock()
+	defer r.secretsMu.Unlock()
+	return r.lastEndedS
+}
+
+// noteSecret (C11): every secret the network ever handed out, by session.
+func (r *e2Run) noteSecret(session, auth string) {
+	r.secretsMu.Lock()
+	defer r.secretsMu.Unlock()
+	if r.secrets == nil {
+		r.secrets = map[string]string{}
+	}
+	if other, dup := r.secrets[auth]; dup && other != session {
+		r.violate("C11", "secret-not-unique", "secret-not-unique", "sessions %s and %s were given the same secret (%s...): each can post, read and delete as the other", other, session, trunc(auth, 16))
+	}
+	r.secrets[auth] = session
+	r.count("secrets_compared", 1)
 }
 
 func (r *e2Run) faultFree() bool {
@@ -1801,6 +1995,9 @@ func e2Execute(t *testing.T, sc *e2Scenario, prop string, res *core.Result) erro
 	switch prop {
 	case "C11":
 		runActor(r.attacker)
+		if e2RaceBuild {
+			runActor(r.stress)
+		}
 	case "C16":
 		runActor(r.admin)
 	case "C17":
@@ -1897,7 +2094,7 @@ func (r *e2Run) readAll(n *e2Node, c *e2Client) ([]robust.Message, int) {
 		mu.Unlock()
 	}}
 	done := make(chan struct{})
-	go func() { n.api.DispatchPublic(w, req); close(done) }()
+	go func() { e2Serve(n.api, w, req); close(done) }()
 	for k := 0; k < 400; k++ {
 		time.Sleep(50 * time.Millisecond)
 		select {
@@ -1974,6 +2171,7 @@ func (r *e2Run) finalChecks(lastFault time.Time) {
 		}
 		var ref string
 		var refMsgs []robust.Message
+		refOK := false
 		for _, n := range r.nodes {
 			ms, code := r.readAll(n, c)
 			// a node may refuse while it is not (yet) a follower in contact with the leader; after the last
@@ -1993,6 +2191,7 @@ func (r *e2Run) finalChecks(lastFault time.Time) {
 			s := streamString(ms)
 			if n.idx == 0 {
 				ref, refMsgs = s, ms
+				refOK = true
 				r.tr.Log("stream of client %d: %s", c.idx, s)
 			} else if s != ref {
 				r.violate("C05", "streams-differ", "streams-differ", "session %s (client %d): node %d delivers a different sequence than node 0:\n%s", c.session, c.idx, n.idx, firstDiff(ref, s))
@@ -2099,6 +2298,9 @@ func (r *e2Run) finalChecks(lastFault time.Time) {
 			inRef[m.Id] = true
 		}
 		for _, m := range c.got {
+			if !refOK {
+				break // the reference stream could not be read (reported above): nothing to compare with
+			}
 			r.count("received_messages_checked", 1)
 			if !inRef[m.Id] {
 				r.violate("C11", "foreign-message-revealed", "foreign-message-revealed", "client %d (session %s), reading with its own secret over resumed connections, was given message %d.%d %q, which is not part of its own stream on any node", c.idx, c.session, m.Id.Id-prodMessageOffsetE2, m.Id.Reply, trunc(m.Data, 100))
